@@ -84,8 +84,9 @@ class C09(Prop):
             "called with a dtype drawn from its admissible list; the phased matrix is also projected through "
             "DenseUnphasedGenotyping and both objects are queried.  Non-trivial = at least 2 taxa, a fixed and a "
             "polymorphic locus in the same matrix")
-    TRUSTED = ["numpy integer sums and one correctly rounded IEEE division per frequency "
-               "(abstracted by RoundingContract in Lemmas/Rounding.lean)",
+    TRUSTED = ["numpy integer sums and one correctly rounded IEEE division per frequency (modelled by "
+               "Binary64.roundBinary64, proved to satisfy RoundingContract, and compared bit for bit with the float64 "
+               "outputs afreq/tafreq/gtfreq/maf in every case)",
                "casts between numpy dtypes (float64 -> float32/float16 is monotone and fixes 0 and 1)"]
     ASSUMPTIONS = ["raw calls are valid: binary alleles (phased), dosages in 0..ploidy (unphased), >= 1 taxon, >= 1 locus",
                    "requested integer dtypes can hold the counts (no int8 accumulator for counts above 127); "
@@ -164,6 +165,9 @@ class C09(Prop):
         out.append({"kind": "phased", "nt": 1, "nv": 2, "ploidy": 1, "dtypes": dict(nod), "mat": [[[1, 0]]]})
         out.append({"kind": "unphased", "nt": 3, "nv": 2, "ploidy": 2, "dtypes": dict(nod),
                     "mat": [[1, 1], [1, 1], [1, 2]]})
+        # hexaploid dosages: 5/6 differs from 5*(1/6) in the last bit (bit-exact comparison with the IEEE model)
+        out.append({"kind": "unphased", "nt": 3, "nv": 2, "ploidy": 6, "dtypes": dict(nod),
+                    "mat": [[5, 1], [6, 0], [3, 2]]})
         # D2 regression: a diploid unphased matrix must report three genotype classes
         out.append({"kind": "unphased", "nt": 4, "nv": 2, "ploidy": 2, "dtypes": dict(nod),
                     "mat": [[0, 2], [1, 2], [2, 2], [2, 0]]})
@@ -349,6 +353,10 @@ class C09(Prop):
                 tol = _tol(case, s) if s in STATS else TOL["float64"]
                 if not self._cmp(s, model[who][s], obs[who][s], tol):
                     bad.append(f"{who}.{s}")
+                # float64 outputs: bit-exact against the IEEE rounding model (Binary64.roundBinary64)
+                if s in ("afreq", "tafreq", "gtfreq", "maf") and _dtname(case["dtypes"].get(s), s) == "float64":
+                    if model[who + "64"][s] != obs[who][s]:
+                        bad.append(f"{who}.{s}:not bit-exact with roundBinary64")
         corr = not bad
         # dtype clause of the Spec (checked here: dtypes are not part of the numeric canonical form)
         dt_bad = []
@@ -464,6 +472,9 @@ class C09(Prop):
         def p_tafreq_ntaxa(self, dtype=None):
             return cast(self._mat.sum(self.phase_axis) / float(self.ntaxa), dtype)
 
+        def u_tafreq_recip(self, dtype=None):            # one ulp off for 5/6: only the bit-exact comparison sees it
+            return cast(self._mat * (1.0 / float(self.ploidy)), dtype)
+
         def p_acount_taxa_only(self, dtype=None):
             return cast(self._mat[0].sum(0), dtype)
 
@@ -553,6 +564,7 @@ class C09(Prop):
             ("afreq_reciprocal_form_unphased_only", lambda: patch((UG, "afreq", u_afreq_recip))),
             ("afreq_without_ploidy", lambda: patch((UG, "afreq", u_afreq_noploidy), (PG, "afreq", p_afreq_noploidy))),
             ("tafreq_divides_by_ntaxa", lambda: patch((PG, "tafreq", p_tafreq_ntaxa))),
+            ("tafreq_reciprocal_form_one_ulp", lambda: patch((UG, "tafreq", u_tafreq_recip))),
             ("acount_first_phase_only", lambda: patch((PG, "acount", p_acount_taxa_only))),
             ("afixed_tests_one_only", lambda: patch((UG, "afixed", afixed_one_only))),
             ("afixed_isclose_tolerance", lambda: patch((UG, "afixed", afixed_isclose))),
